@@ -67,18 +67,35 @@ def _vsop_contract(it, fref, args, kwargs):
                               COORD + "nutation_longitude": (lambda it, f, a, k: __import__("pyvc.interp", fromlist=["SObj"]).SObj("Angle", {"_deg": Num.real_var("dpsi"), "_tol": Num.of(TOL)}))},
            axioms=("trig-range", "pi"), functions=[COORD + "geometric_vsop_pos", COORD + "apparent_vsop_pos"], crosscheck=0, timeout=60)
 def h_corrections(ctx, fn):
+    """both functions with their optional flag symbolic: geometric_vsop_pos(..., tofk5) applies the FK5 conversion exactly when
+    asked; apparent_vsop_pos(..., nutation) always applies FK5 and aberration ('FK5 is always included') and adds the nutation
+    in longitude exactly when asked"""
     if ctx.native:
         return
     j = ctx.real("jde", 990000, 3200000)
     e = ctx.obj("Epoch")
     ctx.setfield(e, "_jde", j)
-    out = ctx.call(COORD + fn, e, [], [], [])
+    flag = ctx.bool("flag")
+    if fn == "apparent_vsop_pos":
+        out = ctx.call(COORD + fn, e, [], [], [], nutation=flag)
+    else:
+        out = ctx.call(COORD + fn, e, [], [], [], tofk5=flag)
     lon0, lat0, r0 = Num.real_var("lon0"), Num.real_var("lat0"), Num.real_var("r0")
     dpsi = Num.real_var("dpsi")
     ctx.assume(and_(dpsi > Fraction(-1, 100), dpsi < Fraction(1, 100)))
     lon, lat, r = ctx.field(out[0], "_deg"), ctx.field(out[1], "_deg"), out[2]
-    dm = ctx.it.info["dms2deg_args"]
+    dm = ctx.it.info.get("dms2deg_args", [])
     ctx.vc("distance unchanged by the corrections", r == r0)
+    want = 4 if fn == "apparent_vsop_pos" else 3
+    if len(dm) != want:
+        if fn == "apparent_vsop_pos":
+            ctx.vc("FK5 conversion and aberration are applied whatever the nutation flag says", False)
+        else:
+            ctx.vc("the FK5 conversion is left out only when tofk5 is False", not_(flag))
+            ctx.vc("without FK5 the series values are returned as they are", and_(lon == lon0, lat == lat0))
+        return
+    if fn == "geometric_vsop_pos":
+        ctx.vc("the FK5 conversion is applied only when tofk5 is True", flag)
     # FK5: delta_lon = -0.09033'' + a'', a = 0.03916 (cos L' + sin L') tan(beta);  delta_beta = 0.03916 (cos L' - sin L')''
     ctx.vc("FK5 correction in longitude starts from -0.09033 arcsec", dm[0][2] == Fraction(-9033, 100000))
     dbeta = dm[2][2]
@@ -87,8 +104,8 @@ def h_corrections(ctx, fn):
     if fn == "apparent_vsop_pos":
         ab = dm[3][2]
         ctx.vc("aberration correction is -20.4898 arcsec / r", ab * r0 == Fraction(-204898, 10000))
-        tl = (lon0 + (dm[0][2] + dm[1][2] + ab) / 3600 + dpsi - lon) / 360
-        ctx.vc("longitude == series longitude + FK5 + nutation + aberration (mod 360)", tl == floor_(tl))
+        tl = (lon0 + (dm[0][2] + dm[1][2] + ab) / 3600 + ite(flag, dpsi, Num.of(0)) - lon) / 360
+        ctx.vc("longitude == series longitude + FK5 + aberration + (nutation when asked) (mod 360)", tl == floor_(tl))
     else:
         tl = (lon0 + (dm[0][2] + dm[1][2]) / 3600 - lon) / 360
         ctx.vc("longitude == series longitude + FK5 correction (mod 360)", tl == floor_(tl))
@@ -287,3 +304,7 @@ def h_wrappers(ctx, pl, meth):
         passed = a[4] if len(a) > 4 else kw.get("tofk5", kw.get("nutation"))
         ctx.vc("the optional flag (%s) reaches the series function" % params[1],
                isinstance(passed, SBool) and iff(passed, flag))
+
+
+P.frame_check(["pymeeus.<Planet>:<Planet>.orbital_elements_mean_equinox", "pymeeus.<Planet>:<Planet>.orbital_elements_j2000",
+               "pymeeus.Coordinates:orbital_elements"])
